@@ -243,6 +243,19 @@ written `@` there) is a number or boolean converted by `string_value` (model) / 
 A third answer field tells whether the F09g trigger predicate holds. -/
 def answer (line : String) : String :=
   match line.splitOn "|" with
+  | "conv1" :: na :: rest =>       -- the XPath 1.0 parser: callers go through compat_string_value
+    match parseNumArg na with
+    | none => "bad-num"
+    | some a =>
+      let m := Strings.compatStringValue true a
+      let s := FOStrings.xp1String a
+      match rest with
+      | [] => vS m ++ "|" ++ vS s ++ "|0"
+      | _ =>
+        let sub (v : Str) : String := "|".intercalate (rest.map fun f => if f == "@" then showNats v else f)
+        match (answerBase (sub m)).splitOn "|", (answerBase (sub s)).splitOn "|" with
+        | [mm, _], [_, ss] => mm ++ "|" ++ ss ++ "|0"
+        | _, _ => "bad-conv " ++ answerBase (sub m)
   | "conv" :: na :: rest =>
     match parseNumArg na with
     | none => "bad-num"
